@@ -7,7 +7,9 @@ Inductive ype_kind := Generic | Unmatched | TypeMismatch | Recursion | NoDocumen
                     | DuplicateKey | BadAlias.
 Inductive pycrash := IndexError | TypeError | KeyError | ValueError | AttributeError
                    | ReError | RecursionError | NotImplemented.
-Inductive exn := YPE (k : ype_kind) | MergeExc | EyamlExc | PyCrash (c : pycrash).
+(* OracleMiss: the finite oracle table shipped with a request lacks an entry
+   (a harness error; the correspondence check fails closed on it). *)
+Inductive exn := YPE (k : ype_kind) | MergeExc | EyamlExc | PyCrash (c : pycrash) | OracleMiss.
 
 Inductive outcome (A : Type) := Ok (a : A) | Raise (e : exn) | OutOfFuel.
 Arguments Ok {A} a.
